@@ -20,18 +20,24 @@ const (
 
 func init() {
 	for k, v := range map[string]externalFn{
-		"os.MkdirAll":         extMkdirAll,
-		"os.OpenFile":         extOpenFile,
-		"os.ReadFile":         extReadFile,
-		"os.WriteFile":        extWriteFile,
-		"os.ReadDir":          extReadDir,
-		"os.Remove":           extRemove,
-		"os.Stat":             extStat,
-		"os.Open":             func(fr *frame, args []value) value { return extOpenFile(fr, []value{args[0], 0, uint32(0)}) },
-		"os.Create":           func(fr *frame, args []value) value { return extOpenFile(fr, []value{args[0], oRDWR | oCREATE | oTRUNC, uint32(0o666)}) },
+		"os.MkdirAll":  extMkdirAll,
+		"os.OpenFile":  extOpenFile,
+		"os.ReadFile":  extReadFile,
+		"os.WriteFile": extWriteFile,
+		"os.ReadDir":   extReadDir,
+		"os.Remove":    extRemove,
+		"os.Stat":      extStat,
+		"os.Open":      func(fr *frame, args []value) value { return extOpenFile(fr, []value{args[0], 0, uint32(0)}) },
+		"os.Create": func(fr *frame, args []value) value {
+			return extOpenFile(fr, []value{args[0], oRDWR | oCREATE | oTRUNC, uint32(0o666)})
+		},
 		"(*os.File).Readdirnames": extReaddirnames,
-		"(*os.File).Name":     func(fr *frame, args []value) value { return fr.i.fileOf(args[0], "Name").path },
-		"os.Lstat":            extStat,
+		"(*os.File).Name":         func(fr *frame, args []value) value { return fr.i.fileOf(args[0], "Name").path },
+		"os.Lstat":                extLstat,
+		"os.Readlink":             extReadlink,
+		"os.IsPathSeparator": func(fr *frame, args []value) value {
+			return fr.i.truth(equalsT(fr.i, types.Typ[types.Uint8], args[0], uint8('/')))
+		},
 		"os.IsNotExist":       extIsNotExist,
 		"os.Getenv":           extGetenv,
 		"os.LookupEnv":        extLookupEnv,
@@ -87,6 +93,47 @@ func extStat(fr *frame, args []value) value {
 	setField(p, T, "N", n.name)
 	setField(p, T, "Sz", int64(len(n.data)))
 	return tuple{iface{t: types.NewPointer(T), v: p}, nilErr()}
+}
+
+// extLstat: like Stat, except that a symbolic link itself is reported as such.
+func extLstat(fr *frame, args []value) value {
+	i := fr.i
+	fs := i.path.fs
+	if len(fs.links) > 0 {
+		dir, name := i.splitPath(args[0])
+		if ns, ok := name.(string); ok {
+			full := dir + "/" + ns
+			if dir == "/" {
+				full = "/" + ns
+			}
+			if _, isLink := fs.links[full]; isLink {
+				i.yield()
+				T := i.namedType(vxPkg, "FileInfo")
+				p := newStruct(T)
+				setField(p, T, "N", name)
+				setField(p, T, "Link", true)
+				return tuple{iface{t: types.NewPointer(T), v: p}, nilErr()}
+			}
+		}
+	}
+	return extStat(fr, args)
+}
+
+func extReadlink(fr *frame, args []value) value {
+	i := fr.i
+	i.yield()
+	fs := i.path.fs
+	dir, name := i.splitPath(args[0])
+	if ns, ok := name.(string); ok {
+		full := dir + "/" + ns
+		if dir == "/" {
+			full = "/" + ns
+		}
+		if t, isLink := fs.links[full]; isLink {
+			return tuple{t, nilErr()}
+		}
+	}
+	return tuple{"", i.fsErr("readlink (invalid argument)", args[0])}
 }
 
 func extIsNotExist(fr *frame, args []value) value {
@@ -160,7 +207,7 @@ func extOpenFile(fr *frame, args []value) value {
 		}
 		full := dir
 		if ns, _ := name.(string); ns != "" {
-			full = cleanDir(dir + "/" + ns)
+			full = fs.canon(dir + "/" + ns)
 		}
 		return tuple{i.newFileHandle(&openFile{isDir: true, dirPath: full, rd: true, path: args[0]}), nilErr()}
 	}
@@ -178,6 +225,7 @@ func extOpenFile(fr *frame, args []value) value {
 	}
 	if flag&oTRUNC != 0 && len(n.data) > 0 {
 		n.data = nil
+		n.muts++
 		fs.logOp("truncate %s/%s", dir, toString(name))
 	}
 	of := &openFile{node: n, app: flag&oAPPEND != 0, rd: flag&oWRONLY == 0, wr: flag&(oWRONLY|oRDWR) != 0, path: args[0]}
@@ -225,6 +273,7 @@ func extWriteFile(fr *frame, args []value) value {
 	}
 	data := args[1].([]value)
 	n.data = append([]value(nil), data...)
+	n.muts++
 	fs.logOp("writefile %s/%s (%d bytes)", dir, toString(name), len(data))
 	return nilErr()
 }
@@ -240,7 +289,7 @@ func extRemove(fr *frame, args []value) value {
 	n := fs.find(i, dir, name)
 	if n == nil {
 		if fs.isDirPath(i, dir, name) {
-			full := cleanDir(dir + "/" + name.(string))
+			full := fs.canon(dir + "/" + name.(string))
 			files, subs := fs.listDir(full)
 			if len(files)+len(subs) > 0 {
 				return i.fsErr("remove (directory not empty)", args[0])
@@ -272,7 +321,7 @@ func extReadDir(fr *frame, args []value) value {
 		}
 		ds = d + "/" + string(b)
 	}
-	ds = cleanDir(ds)
+	ds = fs.canon(ds)
 	T := i.namedType(vxPkg, "DirEntry")
 	deT := i.namedType("io/fs", "DirEntry")
 	_ = deT
@@ -343,6 +392,7 @@ func extFileWrite(fr *frame, args []value) value {
 		nd = append(nd, n.data[off+len(data):]...)
 	}
 	n.data = nd
+	n.muts++
 	of.off = off + len(data)
 	fs.logOp("write %s/%s at %d (%d bytes)", n.dir, toString(n.name), off, len(data))
 	return tuple{len(data), nilErr()}
@@ -413,6 +463,7 @@ func extFileTruncate(fr *frame, args []value) value {
 			n.data = append(n.data, byte(0))
 		}
 	}
+	n.muts++
 	fs.logOp("truncate %s/%s to %d", n.dir, toString(n.name), size)
 	return nilErr()
 }
